@@ -25,9 +25,16 @@ from typing import Optional
 CORE_MODULES = ("abstract", "models", "helpers", "utils", "hypertuner", "multitask")
 
 
+_PURE_BUILTINS = {"len", "isinstance", "abs", "min", "max", "int", "float", "bool", "str", "range", "tuple"}
+
+
 def _effect_free(e: ast.AST) -> bool:
     for n in ast.walk(e):
-        if isinstance(n, (ast.Call, ast.Await, ast.Yield, ast.YieldFrom, ast.NamedExpr, ast.Lambda, ast.ListComp,
+        if isinstance(n, ast.Call):
+            if isinstance(n.func, ast.Name) and n.func.id in _PURE_BUILTINS and not n.keywords:
+                continue
+            return False
+        if isinstance(n, (ast.Await, ast.Yield, ast.YieldFrom, ast.NamedExpr, ast.Lambda, ast.ListComp,
                           ast.GeneratorExp, ast.DictComp, ast.SetComp)):
             return False
     return True
@@ -181,6 +188,30 @@ def _rewrite_block(stmts: list) -> list:
                 out.append(_loc(new, st))
                 i += 2
                 continue
+        # N9 if/else assigning the same name -> conditional expression
+        if isinstance(st, ast.If) and len(st.body) == 1 and len(st.orelse) == 1 \
+                and all(isinstance(x, ast.Assign) and len(x.targets) == 1 and isinstance(x.targets[0], ast.Name) for x in (st.body[0], st.orelse[0])) \
+                and st.body[0].targets[0].id == st.orelse[0].targets[0].id:
+            name = st.body[0].targets[0].id
+            if name not in _names(st.test):
+                new = ast.Assign(targets=[ast.Name(id=name, ctx=ast.Store())],
+                                 value=ast.IfExp(test=st.test, body=st.body[0].value, orelse=st.orelse[0].value))
+                out.append(_loc(new, st))
+                i += 1
+                continue
+        # N11 conditional re-assignment of an existing name: `if C: x = E` -> `x = E if C else x`  (x certainly bound before:
+        # it is a parameter or assigned earlier in this block)
+        if isinstance(st, ast.If) and not st.orelse and len(st.body) == 1 and isinstance(st.body[0], ast.Assign) \
+                and len(st.body[0].targets) == 1 and isinstance(st.body[0].targets[0], ast.Name):
+            name = st.body[0].targets[0].id
+            bound_before = any(name in {t.id for s2 in [p] for t in ast.walk(s2) if isinstance(t, ast.Name) and isinstance(t.ctx, ast.Store)}
+                               for p in out if isinstance(p, (ast.Assign, ast.AnnAssign)))
+            if bound_before and name not in _names(st.test) and _effect_free(st.test):
+                new = ast.Assign(targets=[ast.Name(id=name, ctx=ast.Store())],
+                                 value=ast.IfExp(test=st.test, body=st.body[0].value, orelse=ast.Name(id=name, ctx=ast.Load())))
+                out.append(_loc(new, st))
+                i += 1
+                continue
         # N6
         if isinstance(st, ast.Assign) and len(st.targets) == 1 and isinstance(st.value, ast.BinOp) \
                 and isinstance(st.value.op, (ast.Add, ast.BitOr, ast.BitAnd)) \
@@ -207,11 +238,49 @@ class _Stmt(ast.NodeTransformer):
         return node
 
 
+def _nested_defs(fn: ast.FunctionDef) -> list:
+    """FunctionDefs nested directly in fn (in any block, not inside deeper defs)."""
+    out = []
+
+    def rec(stmts):
+        for s in stmts:
+            if isinstance(s, ast.FunctionDef):
+                out.append(s)
+                continue
+            for f in ("body", "orelse", "finalbody"):
+                b = getattr(s, f, None)
+                if isinstance(b, list) and b and isinstance(b[0], ast.stmt):
+                    rec(b)
+            for h in getattr(s, "handlers", []) or []:
+                rec(h.body)
+    rec(fn.body)
+    return out
+
+
+def _drop_def(fn: ast.FunctionDef, g: ast.FunctionDef) -> None:
+    def rec(holder):
+        for f in ("body", "orelse", "finalbody"):
+            b = getattr(holder, f, None)
+            if isinstance(b, list) and b and isinstance(b[0], ast.stmt):
+                if g in b:
+                    nb = [s for s in b if s is not g]
+                    setattr(holder, f, nb or [ast.copy_location(ast.Pass(), g)])
+                    return True
+                for s in b:
+                    if not isinstance(s, ast.FunctionDef) and rec(s):
+                        return True
+        return False
+    rec(fn)
+
+
 def _inline_closures(fn: ast.FunctionDef) -> None:
     """N7 on one function (in place)."""
-    local = [st for st in fn.body if isinstance(st, ast.FunctionDef)]
+    local = _nested_defs(fn)
     for g in local:
         a = g.args
+        if (a.args and not a.defaults and not (a.posonlyargs or a.kwonlyargs or a.vararg or a.kwarg or g.decorator_list)):
+            _inline_param_closure(fn, g)
+            continue
         if a.args or a.posonlyargs or a.kwonlyargs or a.vararg or a.kwarg or g.decorator_list:
             continue
         body = [s for s in g.body if not (isinstance(s, ast.Expr) and isinstance(s.value, ast.Constant))]
@@ -260,6 +329,60 @@ def _inline_closures(fn: ast.FunctionDef) -> None:
                           and isinstance(s.value.func, ast.Name) and s.value.func.id == g.name]
             if len(stmt_calls) == len(calls):
                 fn.body = [s for s in splice(fn.body) if s is not g]
+
+
+def _inline_param_closure(fn: ast.FunctionDef, g: ast.FunctionDef) -> None:
+    """`def g(p, q): return E` whose every use is a direct call g(a, b) with effect-free arguments and whose body reads no
+    name that is rebound between definition and use (approximated: E only reads its parameters, `self`, and names never
+    stored after g's definition) -> E[p:=a, q:=b] at the call sites.  Each parameter may occur at most once in E unless
+    the argument is a plain name/constant (no duplicated work)."""
+    body = [s for s in g.body if not (isinstance(s, ast.Expr) and isinstance(s.value, ast.Constant))]
+    if len(body) != 1 or not isinstance(body[0], ast.Return) or body[0].value is None:
+        return
+    expr = body[0].value
+    if any(isinstance(x, (ast.Lambda, ast.Yield, ast.YieldFrom, ast.NamedExpr)) for x in ast.walk(expr)):
+        return
+    params = [x.arg for x in g.args.args]
+    uses = [x for x in ast.walk(fn) if isinstance(x, ast.Name) and x.id == g.name and isinstance(x.ctx, ast.Load)]
+    calls = [x for x in ast.walk(fn) if isinstance(x, ast.Call) and isinstance(x.func, ast.Name) and x.func.id == g.name]
+    if not calls or len(uses) != len(calls):
+        return
+    for c in calls:
+        if c.keywords or len(c.args) != len(params) or any(isinstance(z, ast.Starred) for z in c.args) \
+                or not all(_effect_free(z) for z in c.args):
+            return
+    # a closure reads its free variables when it is *called*; the inlined expression reads them at the same moment.
+    # Only a comprehension variable of the call site shadowing a free name would change the meaning:
+    free = {x.id for x in ast.walk(expr) if isinstance(x, ast.Name) and isinstance(x.ctx, ast.Load)} - set(params)
+    for comp in ast.walk(fn):
+        if isinstance(comp, (ast.ListComp, ast.GeneratorExp, ast.SetComp, ast.DictComp)):
+            tg = {x.id for gg in comp.generators for x in ast.walk(gg.target) if isinstance(x, ast.Name)}
+            if tg & free and any(c in list(ast.walk(comp)) for c in calls):
+                return
+    count = {p: sum(1 for x in ast.walk(expr) if isinstance(x, ast.Name) and x.id == p) for p in params}
+
+    class R(ast.NodeTransformer):
+        def visit_Call(self, c):
+            self.generic_visit(c)
+            if isinstance(c.func, ast.Name) and c.func.id == g.name:
+                m = dict(zip(params, c.args))
+                if any(count[p] > 1 and not isinstance(m[p], (ast.Name, ast.Constant, ast.Attribute)) for p in params):
+                    return c
+
+                class S(ast.NodeTransformer):
+                    def visit_Name(self, nn):
+                        if isinstance(nn.ctx, ast.Load) and nn.id in m:
+                            return copy.deepcopy(m[nn.id])
+                        return nn
+                return _loc(S().visit(copy.deepcopy(expr)), c)
+            return c
+    holder_body = list(fn.body)
+    saved = g.body
+    g.body = [ast.Pass()]            # do not rewrite inside g itself
+    R().visit(fn)
+    g.body = saved
+    if not any(isinstance(x, ast.Name) and x.id == g.name and isinstance(x.ctx, ast.Load) for x in ast.walk(fn)):
+        _drop_def(fn, g)
 
 
 def normalize_module(tree: ast.Module) -> ast.Module:
